@@ -201,6 +201,7 @@ extern void (*g_abort_in_fiber)(int kind);
  * blocks of library code executed, a deterministic, machine-independent measure of how much an operation did */
 extern uint64_t g_work, g_work_at_try;
 extern unsigned g_solo_yields;
+extern int g_simpt_fresh;
 #define TRY(stmt) do { \
         g_aborted = 0; g_trap_armed = 1; simheap_op_begin(); g_work_at_try = g_work; g_solo_yields = 0; \
         if (_setjmp(g_trap_jmp) == 0) { g_inlib = 1; stmt; } \
